@@ -36,7 +36,15 @@ def rule_next_when_empty(P, R, rid):
         u = P.unit(q)
         fm = factmap(u)
         pops = [c for c in own_nodes(u.node) if isinstance(c, ast.Call) and call_text(c) == plan + '.pop']
-        R.require(len(pops) == 1, '%s: expected one %s.pop call' % (q, plan))
+        if len(pops) != 1:
+            # the group is not (or not only) popped from the attribute itself: e.g. from a local copy / alias of it, which
+            # sa.normalise does not look through when a callee may re-bind the attribute in the meantime
+            other = [ast.unparse(c.func) for c in own_nodes(u.node) if isinstance(c, ast.Call) and
+                     isinstance(c.func, ast.Attribute) and c.func.attr == 'pop']
+            R.fail(rid, 'pop-guard|%s' % q, u.loc(), '%s does not pop the next group from %s exactly once (pops: %s): a '
+                   'local alias does not follow %s when a failure strategy re-binds it to clear the plan' %
+                   (q, plan, other, plan))
+            continue
         fs = {tuple(f) for f in fm.at(pops[0])}
         ok = (cur, False) in fs and (plan, True) in fs
         R.check(rid, ok, '%s pops the next group only when no current job is left' % q, 'pop-guard|%s' % q,
